@@ -148,6 +148,15 @@ func c38strings(thorough bool) []string {
 	containers := []string{"c", "c.x", "c_1", ""}
 	dtails := []string{"/p", "/~/p", "/~u/p", "/~", "/C:\\p", "/C:/p", "/c:\\p", "//p", "/", "", "/12:x", "/p@q",
 		":tcp:localhost:80", ":unix:/s", ":unix:rel", ":npipe:\\\\.\\pipe\\x", ":bad:x", ":", ":tcp::80"}
+	// Non-canonical absolute spellings (doubled slashes, "." and ".." segments)
+	// in front of first components that the Docker parser and formatter treat
+	// specially (home-relative "~", "~x"; drive letters).
+	for _, lead := range []string{"//", "/./", "/../", "/a/../", "///"} {
+		for _, first := range []string{"~x", "~", "~/p", "C:", "C:/x", "C:\\x", "p"} {
+			dtails = append(dtails, lead+first)
+		}
+	}
+	dtails = append(dtails, "/p//q", "/p/./q", "/p/../q", "/p/", "/~/./p", "/~x//y", "/.", "/..", "/C:/x/../y")
 	if thorough {
 		dusers = append(dusers, "u@v", "-u", "0")
 		containers = append(containers, "-c", "c-1", "C", "0")
